@@ -148,6 +148,11 @@ def run(ctx):
     wit = ctx.model.call('stabilizer_state', 2, [[[1, 0, 1, 0], 0]])
     do(ctx, 'ent_dense', ['np', wit, [1, 0]], nontrivial='w', sample=True)
     do(ctx, 'ent_corr', ['np', wit, [1, 0]])
+    # LARGE registers: byte, word and cache-line boundaries of every packed or vectorised representation (8, 9, 16, 17, 33, 64, 65 qubits); model correspondence only
+    for n in gen.BIG:
+        t = gen.rtableau(rng, ctx.model, n)
+        for mask in ([1 if q < n // 2 else 0 for q in range(n)], [rng.randint(0, 1) for _ in range(n)]):
+            do(ctx, 'ent_corr', ['np', t, mask], nontrivial=('big', n, str(mask)))
     for it in range(int(600 * B)):
         n = rng.randint(1, 6)
         t = gen.rtableau(rng, ctx.model, n)
